@@ -275,12 +275,12 @@ def rules(ctx: Ctx) -> None:
     from .common import import_rules as _imp02
 
     _imp02(ctx, "C06", {"R06.4": "R02.8"})
-    # ---- R02.10 (= R05.3): the select items, tables and set-operation barriers an extractor collects belong to one query - an extractor kept across
+    # ---- R02.13 (= R05.3): the select items, tables and set-operation barriers an extractor collects belong to one query - an extractor kept across
     # statements pairs a later statement's targets with an earlier statement's items
-    _imp02(ctx, "C05", {"R05.3": "R02.10"}, key_filter=lambda o: o.key.startswith(("analyzer-state", "per-query-object")))
-    # ---- R02.11 (= R16.2 at alias sites): an alias is normalised once - normalised twice, a quoted mixed-case CTE / derived-table name no longer matches
+    _imp02(ctx, "C05", {"R05.3": "R02.13"}, key_filter=lambda o: o.key.startswith(("analyzer-state", "per-query-object")))
+    # ---- R02.14 (= R16.2 at alias sites): an alias is normalised once - normalised twice, a quoted mixed-case CTE / derived-table name no longer matches
     # the qualifier of its columns and they are attributed to a made-up table
-    _imp02(ctx, "C16", {"R16.2": "R02.11"}, key_filter=lambda o: o.key.startswith("SubQuery(alias)"))
+    _imp02(ctx, "C16", {"R16.2": "R02.14"}, key_filter=lambda o: o.key.startswith("SubQuery(alias)"))
 
     # ---- R02.9 select items are collected one for one: target columns are paired with them by position, so nothing may stand between the
     # select clause elements and the list they are collected in (an item without source columns still occupies its position)
